@@ -1,6 +1,118 @@
-(* C06 (growing) *)
-From GF Require Import Base.Bytes Model.Mem Proofs.MemProofs.
-Theorem C06_put_frame : forall s b k body m s' r b' k',
-  put_object s b k body m = (s', r) -> (b', k') <> (b, k) -> get_object s' b' k' = get_object s b' k'.
-Proof. exact get_put_other. Qed.
-Print Assumptions C06_put_frame.
+(* C06 — Completing a multipart upload stores exactly the listed parts, once, or nothing.
+   Model: Model/Uploader.v over the backend model Model/Mem.v; md5 and hex are universally
+   quantified (the theorems hold for every hash function). *)
+From GF Require Import Base.Bytes Base.SortedMap Model.Mem Model.Handlers Model.Uploader Proofs.UploaderProofs.
+Open Scope Z_scope.
+
+(* the uploader invariant holds initially and is preserved by every operation *)
+Theorem C06_inv_init : UInv uinit.
+Proof. exact uinv_init. Qed.
+Print Assumptions C06_inv_init.
+Theorem C06_inv_create : forall u b k m, UInv u -> UInv (fst (create_upload u b k m)).
+Proof. exact (create_upload_inv (fun x => x) (fun x => x)). Qed.
+Print Assumptions C06_inv_create.
+Theorem C06_inv_part : forall md5 hex u b k id pn body, UInv u -> UInv (fst (upload_part md5 hex u b k id pn body)).
+Proof. exact upload_part_inv. Qed.
+Print Assumptions C06_inv_part.
+Theorem C06_inv_abort : forall u b k id, UInv u -> UInv (fst (abort_upload u b k id)).
+Proof. exact (abort_upload_inv (fun x => x) (fun x => x)). Qed.
+Print Assumptions C06_inv_abort.
+Theorem C06_inv_complete : forall md5 hex u s b k id req,
+  UInv u -> UInv (fst (fst (complete_upload md5 hex u s b k id req))).
+Proof. exact complete_upload_inv. Qed.
+Print Assumptions C06_inv_complete.
+
+(* several uploads of one key are independent: a new upload has a fresh id, no parts *)
+Theorem C06_fresh_upload : forall u b k m u1 id,
+  UInv u -> create_upload u b k m = (u1, id) ->
+  (forall b' k', get_upload u b' k' id = None) /\
+  exists mpu, get_upload u1 b k id = Some mpu /\ up_parts mpu = [] /\ up_meta mpu = m /\
+  (forall b' k' id', id' <> id -> get_upload u1 b' k' id' = get_upload u b' k' id').
+Proof. exact (create_upload_fresh (fun x => x) (fun x => x)). Qed.
+Print Assumptions C06_fresh_upload.
+
+(* the most recent upload of a part number wins; other parts and uploads are untouched *)
+Theorem C06_latest_part_wins : forall md5 hex u b k id pn body u1 et,
+  UInv u -> upload_part md5 hex u b k id pn body = (u1, (None, et)) ->
+  et = part_etag md5 hex body /\
+  exists mpu mpu1, get_upload u b k id = Some mpu /\ get_upload u1 b k id = Some mpu1 /\
+    nth_error (up_parts mpu1) (Z.to_nat pn) = Some (Some {| pt_body := body; pt_etag := et |}) /\
+    (forall n, n <> Z.to_nat pn -> (n < length (up_parts mpu))%nat -> nth_error (up_parts mpu1) n = nth_error (up_parts mpu) n) /\
+    up_meta mpu1 = up_meta mpu /\
+    (forall b' k' id', id' <> id -> get_upload u1 b' k' id' = get_upload u b' k' id').
+Proof. exact upload_part_latest. Qed.
+Print Assumptions C06_latest_part_wins.
+
+(* accepted complete: ascending list; body = concatenation of the currently held (= most recent)
+   upload of each listed part, in order; composite ETag; initiation metadata; upload id gone;
+   unlisted parts are discarded with it *)
+Theorem C06_complete_ok : forall md5 hex u s b k id req u1 s1 et,
+  UInv u -> complete_upload md5 hex u s b k id req = (u1, s1, (None, et)) ->
+  exists mpu ps,
+    get_upload u b k id = Some mpu /\
+    ints_sorted (map fst req) = true /\
+    Forall2 (fun r p => 0 <= fst r /\ nth_error (up_parts mpu) (Z.to_nat (fst r)) = Some (Some p)) req ps /\
+    et = complete_etag md5 hex ps /\
+    (exists v sv, get_object s1 b k = OObj v sv /\ vd_body v = flat_map pt_body ps /\ vd_meta v = up_meta mpu) /\
+    get_upload u1 b k id = None /\
+    (forall b' k' id', id' <> id -> get_upload u1 b' k' id' = get_upload u b' k' id').
+Proof. exact complete_ok. Qed.
+Print Assumptions C06_complete_ok.
+
+(* rejected complete: stored objects AND pending uploads exactly as they were *)
+Theorem C06_complete_rejected_frame : forall md5 hex u s b k id req u1 s1 e et,
+  complete_upload md5 hex u s b k id req = (u1, s1, (Some e, et)) ->
+  (forall be, e <> UBackend be) -> u1 = u /\ s1 = s.
+Proof. exact complete_rejected_frame. Qed.
+Print Assumptions C06_complete_rejected_frame.
+
+(* what is rejected *)
+Theorem C06_rejects_unknown_part : forall md5 hex u s b k id req mpu n et0,
+  get_upload u b k id = Some mpu -> In (n, et0) req ->
+  (n < 0 \/ nth_error (up_parts mpu) (Z.to_nat n) = None \/ nth_error (up_parts mpu) (Z.to_nat n) = Some None) ->
+  exists e, snd (complete_upload md5 hex u s b k id req) = (Some e, []) /\ (forall be, e <> UBackend be).
+Proof. exact complete_rejects_unknown_part. Qed.
+Print Assumptions C06_rejects_unknown_part.
+
+Theorem C06_rejects_stale_etag : forall md5 hex u s b k id req mpu n et0 p,
+  get_upload u b k id = Some mpu -> In (n, et0) req -> 0 <= n ->
+  nth_error (up_parts mpu) (Z.to_nat n) = Some (Some p) -> trim_quotes et0 <> trim_quotes (pt_etag p) ->
+  exists e, snd (complete_upload md5 hex u s b k id req) = (Some e, []) /\ (forall be, e <> UBackend be).
+Proof. exact complete_rejects_stale_etag. Qed.
+Print Assumptions C06_rejects_stale_etag.
+
+Theorem C06_rejects_out_of_order : forall md5 hex u s b k id req l1 a l2 c l3,
+  map fst req = l1 ++ a :: l2 ++ c :: l3 -> c < a ->
+  exists e, snd (complete_upload md5 hex u s b k id req) = (Some e, []) /\ (forall be, e <> UBackend be).
+Proof. exact complete_rejects_descent. Qed.
+Print Assumptions C06_rejects_out_of_order.
+
+(* abort discards the upload and nothing else; it cannot touch the object: the backend state is
+   not an argument of abort_upload *)
+Theorem C06_abort_frame : forall u b k id u1,
+  UInv u -> abort_upload u b k id = (u1, None) ->
+  get_upload u1 b k id = None /\
+  (forall b' k' id', id' <> id -> get_upload u1 b' k' id' = get_upload u b' k' id').
+Proof. exact abort_frame. Qed.
+Print Assumptions C06_abort_frame.
+
+(* non-vacuity / regression witness: parts 2,1 listed out of order are refused (this was accepted
+   before the fix), 1,2 is accepted and assembled in order *)
+Definition c06_md5 (b : list N) : list N := [N.of_nat (length b)].
+Definition c06_hex (b : list N) : list N := b.
+Definition c06_bk : list N := [98;107;116]%N.
+Definition c06_state :=
+  let s0 := fst (Mem.create_bucket init c06_bk) in
+  let '(u1, id) := create_upload uinit c06_bk [107]%N [] in
+  let u2 := fst (upload_part c06_md5 c06_hex u1 c06_bk [107]%N id 1 [65;65]%N) in
+  let u3 := fst (upload_part c06_md5 c06_hex u2 c06_bk [107]%N id 2 [66]%N) in
+  (u3, s0, id).
+Example C06_ex_out_of_order_refused :
+  let '(u, s, id) := c06_state in
+  fst (snd (complete_upload c06_md5 c06_hex u s c06_bk [107]%N id [(2, quote [1]%N); (1, quote [2]%N)])) = Some UInvalidPartOrder.
+Proof. vm_compute. reflexivity. Qed.
+Example C06_ex_in_order_accepted :
+  let '(u, s, id) := c06_state in
+  let '(_, s1, r) := complete_upload c06_md5 c06_hex u s c06_bk [107]%N id [(1, quote [2]%N); (2, quote [1]%N)] in
+  (fst r, match get_object s1 c06_bk [107]%N with OObj v _ => Some (vd_body v) | _ => None end) = (None, Some [65;65;66]%N).
+Proof. vm_compute. reflexivity. Qed.
